@@ -1,24 +1,22 @@
 //go:build verif
 
-package text
+package richtext
 
 // Contracts for contract-based deductive verification (read by /verif/govc). Comment-only.
 
 /*@
--- the size computed for the text never exceeds the constraint (C14)
-func (t *Text) findContainerSize(ctx vxfw.DrawContext) vxfw.Size
-  requires chars: ref(ctx.Characters) != 0
+func (t *RichText) findContainerSize(cells []vaxis.Cell, ctx vxfw.DrawContext) vxfw.Size
   ensures C14_max: result.Width <= ctx.Max.Width && result.Height <= ctx.Max.Height
   loop * invariant max: size.Width <= ctx.Max.Width && size.Height <= ctx.Max.Height
 
-func (t *Text) Draw(ctx vxfw.DrawContext) (vxfw.Surface, error)
+func (t *RichText) Draw(ctx vxfw.DrawContext) (vxfw.Surface, error)
   requires chars: ref(ctx.Characters) != 0
   ensures C14_max: result1 == nil ==> (result0.Size.Width <= ctx.Max.Width && result0.Size.Height <= ctx.Max.Height)
   ensures C14_buf: result1 == nil ==> len(result0.Buffer) == int(result0.Size.Width) * int(result0.Size.Height)
   loop * invariant surf: s.Size.Width <= ctx.Max.Width && s.Size.Height <= ctx.Max.Height
                       && len(s.Buffer) == int(s.Size.Width) * int(s.Size.Height)
 
-func (t *Text) drawSoftwrap(ctx vxfw.DrawContext) (vxfw.Surface, error)
+func (t *RichText) drawSoftwrap(ctx vxfw.DrawContext) (vxfw.Surface, error)
   requires chars: ref(ctx.Characters) != 0
   ensures C14_max: result1 == nil ==> (result0.Size.Width <= ctx.Max.Width && result0.Size.Height <= ctx.Max.Height)
   ensures C14_buf: result1 == nil ==> len(result0.Buffer) == int(result0.Size.Width) * int(result0.Size.Height)
